@@ -591,20 +591,34 @@ pub fn run_case(case: &AdaptiveCase) -> Report {
             order,
             hold,
         } => {
+            // builder setters in an order derived from the first order byte (none = as written)
+            let perm = order.first().copied().unwrap_or(0) % 8;
             let v = if *vegas {
-                let a = Vegas::builder()
-                    .initial_limit(*initial)
-                    .min_limit(*min)
-                    .max_limit(*max)
-                    .build();
+                let (i0, lo, hi) = (*initial, *min, *max);
+                let a = gen::apply_in_order(
+                    Vegas::builder(),
+                    vec![
+                        Box::new(move |b| b.initial_limit(i0)),
+                        Box::new(move |b| b.min_limit(lo)),
+                        Box::new(move |b| b.max_limit(hi)),
+                    ],
+                    perm,
+                )
+                .build();
                 sim::run_case(run_sim_generic(a, callers, order, *hold))
             } else {
-                let a = Aimd::builder()
-                    .initial_limit(*initial)
-                    .min_limit(*min)
-                    .max_limit(*max)
-                    .latency_threshold(Duration::from_millis(50))
-                    .build();
+                let (i0, lo, hi) = (*initial, *min, *max);
+                let a = gen::apply_in_order(
+                    Aimd::builder(),
+                    vec![
+                        Box::new(move |b| b.initial_limit(i0)),
+                        Box::new(move |b| b.min_limit(lo)),
+                        Box::new(move |b| b.max_limit(hi)),
+                        Box::new(|b| b.latency_threshold(Duration::from_millis(50))),
+                    ],
+                    perm,
+                )
+                .build();
                 sim::run_case(run_sim_generic(a, callers, order, *hold))
             };
             let mut r = Report::default();
